@@ -2,7 +2,12 @@
 // config.FilterIgnoredPaths and Linter.Lint do with them (discovered list, files_scanned,
 // summary), tabulates the glob oracle with the real matcher, evaluates the specification of
 // discovery independently in Go (failing-input search), and compares batch runs with the runs
-// over every block of every partition of small file sets.
+// over every block of every partition of small file sets.  The composition workspaces are (a) the
+// C01 generator's, (b) hand-written modules that trigger the single-file findings of the rules that
+// define both `report` and `aggregate` (corpus/C02/pool_triggers.json), (c) the "Avoid" examples of
+// docs/rules (a broad sample of ordinary rules), linted with every rule enabled.  For every file
+// of a composition workspace the lint query is also evaluated directly with and without the
+// "collect" operation (H_ops of c02_single_file_compose, rule by rule).
 //
 // usage: c02 <out.jsonl> <tier> <workdir> <extra-dir-names,comma> [fixed-trees.json [only]]
 package main
@@ -18,9 +23,11 @@ import (
 	"strings"
 	"sync"
 
+	rbundle "github.com/styrainc/regal/bundle"
 	"github.com/styrainc/regal/pkg/config"
 	"github.com/styrainc/regal/pkg/linter"
 	"github.com/styrainc/regal/pkg/report"
+	"github.com/styrainc/regal/pkg/rules"
 
 	"verifharness/cmd/c01/probe"
 	"verifharness/hutil"
@@ -409,14 +416,27 @@ func runTree(ctx context.Context, rng *hutil.Rng, id int, wabs string, extra []s
 		for _, f := range specFiltered {
 			want[f]++
 		}
-		for f, c := range want {
-			if got[f] < c {
-				tc.SpecBad = "silently skipped: " + canon(f)
+		// deterministic; a file that is not discovered at all outranks one that is discovered fewer
+		// times than the (overlapping) arguments reach it; an unexpected file ranks in between
+		var names []string
+		for f := range want {
+			names = append(names, f)
+		}
+		for f := range got {
+			if _, ok := want[f]; !ok {
+				names = append(names, f)
 			}
 		}
-		for f, c := range got {
-			if want[f] < c {
-				tc.SpecBad = "unexpectedly included: " + canon(f)
+		sort.Strings(names)
+		rank := 0
+		for _, f := range names {
+			switch {
+			case want[f] > 0 && got[f] == 0 && rank < 3:
+				rank, tc.SpecBad = 3, "silently skipped: "+canon(f)
+			case got[f] < want[f] && rank < 1:
+				rank, tc.SpecBad = 1, fmt.Sprintf("discovered %d times, but the arguments reach it %d times: %s", got[f], want[f], canon(f))
+			case want[f] < got[f] && rank < 2:
+				rank, tc.SpecBad = 2, "unexpectedly included: "+canon(f)
 			}
 		}
 	}
@@ -469,14 +489,39 @@ type SubsetRun struct {
 	Err     string              `json:"err,omitempty"`
 }
 
+// OpsRow: what the lint query says about one file for one rule without / with the "collect"
+// operation (only rows where either is non-empty).
+type OpsRow struct {
+	Rule string       `json:"rule"`
+	File string       `json:"file"`
+	Off  []probe.Viol `json:"off"`
+	On   []probe.Viol `json:"on"`
+}
+
+// Diff: the first batch-vs-single difference of a case, minimised.
+type Diff struct {
+	File    string   `json:"file"`
+	Block   []string `json:"block"`      // the (minimised) run in which File is judged differently
+	InBlock []string `json:"in_block"`   // its non-aggregate violations in that run
+	Alone   []string `json:"alone"`      // ... when linted alone
+	Rules   []string `json:"rules"`      // the rules whose findings differ
+	From    []string `json:"from_block"` // the run in which the difference was first seen
+}
+
 type ComposeCase struct {
-	Kind       string          `json:"kind"`
-	ID         int             `json:"id"`
-	WS         probe.Workspace `json:"ws"`
-	Subsets    []SubsetRun     `json:"subsets"`
-	Partitions int             `json:"partitions"`
-	Mismatch   []string        `json:"mismatch"`
-	Summaries  []*SumCase      `json:"summaries"`
+	Kind       string           `json:"kind"`
+	ID         int              `json:"id"`
+	Source     string           `json:"source"`
+	WS         probe.Workspace  `json:"ws"`
+	Subsets    []SubsetRun      `json:"subsets"`
+	Partitions int              `json:"partitions"`
+	Mismatch   []string         `json:"mismatch"`
+	Summaries  []*SumCase       `json:"summaries"`
+	Ops        []OpsRow         `json:"ops"`
+	OpsErr     []string         `json:"ops_err"`
+	ProbeOnly  bool             `json:"probe_only,omitempty"` // quick tier: only the lint query with/without collect, no Lint runs
+	Diff       *Diff            `json:"diff,omitempty"`
+	MinWS      *probe.Workspace `json:"min_ws,omitempty"`
 }
 
 func lintSubset(ctx context.Context, ws probe.Workspace, root string, files []string) (SubsetRun, *SumCase) {
@@ -521,8 +566,138 @@ func lintSubset(ctx context.Context, ws probe.Workspace, root string, files []st
 
 func subsetKey(fs []string) string { return strings.Join(fs, "\x00") }
 
-func runCompose(ctx context.Context, rng *hutil.Rng, id int, ws probe.Workspace, tier string) ComposeCase {
-	cc := ComposeCase{Kind: "compose", ID: id, WS: ws, Mismatch: []string{}}
+func ruleOfKey(k string) string {
+	if i := strings.Index(k, "@"); i >= 0 {
+		return k[:i]
+	}
+	return k
+}
+
+// rulesDiffering: the rules whose multisets of findings differ between two sorted key lists
+func rulesDiffering(a, b []string) []string {
+	cnt := map[string]int{}
+	for _, k := range a {
+		cnt[k]++
+	}
+	for _, k := range b {
+		cnt[k]--
+	}
+	set := map[string]bool{}
+	for k, c := range cnt {
+		if c != 0 {
+			set[ruleOfKey(k)] = true
+		}
+	}
+	out := []string{}
+	for r := range set {
+		out = append(out, r)
+	}
+	sort.Strings(out)
+	return out
+}
+
+func sameKeys(a, b []string) bool {
+	x, _ := json.Marshal(a)
+	y, _ := json.Marshal(b)
+	return string(x) == string(y)
+}
+
+// the lint query evaluated per file, one prepared query per (configuration, custom rules)
+type oracleCache struct {
+	mu sync.Mutex
+	m  map[string]*probe.Oracle
+}
+
+func (oc *oracleCache) get(ctx context.Context, ws probe.Workspace) (*probe.Oracle, error) {
+	oc.mu.Lock()
+	defer oc.mu.Unlock()
+	k := fmt.Sprintf("%s|%v", ws.Config, ws.Custom)
+	if o, ok := oc.m[k]; ok {
+		return o, nil
+	}
+	o, err := probe.NewOracle(ctx, ws)
+	if err != nil {
+		return nil, err
+	}
+	oc.m[k] = o
+	return o, nil
+}
+
+type runner struct {
+	sem     chan struct{} // bounds the number of concurrent Lint calls of the whole harness
+	oracles *oracleCache
+	tier    string
+}
+
+func (rn *runner) lint(ctx context.Context, ws probe.Workspace, root string, files []string) (SubsetRun, *SumCase) {
+	rn.sem <- struct{}{}
+	defer func() { <-rn.sem }()
+	return lintSubset(ctx, ws, root, files)
+}
+
+// opsProbe: H_ops / H_loc of the model, file by file and rule by rule
+func (rn *runner) opsProbe(ctx context.Context, cc *ComposeCase, root string, names []string) {
+	cc.Ops = []OpsRow{}
+	cc.OpsErr = []string{}
+	orc, err := rn.oracles.get(ctx, cc.WS)
+	if err != nil {
+		cc.OpsErr = append(cc.OpsErr, "oracle: "+err.Error())
+		return
+	}
+	rel := func(s string) string { return strings.TrimPrefix(s, root+"/") }
+	rows := make([][]OpsRow, len(names))
+	errs := make([]string, len(names))
+	var wg sync.WaitGroup
+	for i, f := range names {
+		wg.Add(1)
+		go func(i int, f string) {
+			defer wg.Done()
+			rn.sem <- struct{}{}
+			defer func() { <-rn.sem }()
+			by := map[string]*OpsRow{}
+			for _, collect := range []bool{false, true} {
+				fr, err := orc.EvalFile(ctx, filepath.Join(root, f), collect, rel)
+				if err != nil {
+					errs[i] = f + ": " + err.Error()
+					return
+				}
+				for _, v := range fr.Viol {
+					r := ruleOfKey(v.Key)
+					row := by[r]
+					if row == nil {
+						row = &OpsRow{Rule: r, File: f, Off: []probe.Viol{}, On: []probe.Viol{}}
+						by[r] = row
+					}
+					if collect {
+						row.On = append(row.On, v)
+					} else {
+						row.Off = append(row.Off, v)
+					}
+				}
+			}
+			rs := make([]string, 0, len(by))
+			for r := range by {
+				rs = append(rs, r)
+			}
+			sort.Strings(rs)
+			for _, r := range rs {
+				probe.SortViol(by[r].Off)
+				probe.SortViol(by[r].On)
+				rows[i] = append(rows[i], *by[r])
+			}
+		}(i, f)
+	}
+	wg.Wait()
+	for i := range names {
+		cc.Ops = append(cc.Ops, rows[i]...)
+		if errs[i] != "" {
+			cc.OpsErr = append(cc.OpsErr, errs[i])
+		}
+	}
+}
+
+func (rn *runner) runCompose(ctx context.Context, rng *hutil.Rng, id int, ws probe.Workspace, source string, probeOnly bool) ComposeCase {
+	cc := ComposeCase{Kind: "compose", ID: id, Source: source, WS: ws, Mismatch: []string{}, ProbeOnly: probeOnly}
 	root := fmt.Sprintf("c%d", id)
 	_ = os.RemoveAll(root)
 	if err := ws.Write(root); err != nil {
@@ -564,7 +739,7 @@ func runCompose(ctx context.Context, rng *hutil.Rng, id int, ws probe.Workspace,
 		rec(0, nil)
 	} else {
 		np := 2
-		if tier != "quick" {
+		if rn.tier != "quick" {
 			np = 6
 		}
 		partitions = append(partitions, [][]string{append([]string{}, names...)})
@@ -584,8 +759,12 @@ func runCompose(ctx context.Context, rng *hutil.Rng, id int, ws probe.Workspace,
 			partitions = append(partitions, nb)
 		}
 	}
-	for _, f := range names {
-		add([]string{f})
+	if probeOnly {
+		partitions = nil
+	} else {
+		for _, f := range names {
+			add([]string{f})
+		}
 	}
 	for _, p := range partitions {
 		for _, b := range p {
@@ -601,16 +780,18 @@ func runCompose(ctx context.Context, rng *hutil.Rng, id int, ws probe.Workspace,
 	results := make([]SubsetRun, len(keys))
 	sums := make([]*SumCase, len(keys))
 	var wg sync.WaitGroup
-	sem := make(chan struct{}, 6)
 	for i, k := range keys {
 		wg.Add(1)
 		go func(i int, fs []string) {
 			defer wg.Done()
-			sem <- struct{}{}
-			results[i], sums[i] = lintSubset(ctx, ws, root, fs)
-			<-sem
+			results[i], sums[i] = rn.lint(ctx, ws, root, fs)
 		}(i, want[k])
 	}
+	wg.Add(1)
+	go func() {
+		defer wg.Done()
+		rn.opsProbe(ctx, &cc, root, names)
+	}()
 	wg.Wait()
 	byKey := map[string]SubsetRun{}
 	for i, k := range keys {
@@ -621,7 +802,14 @@ func runCompose(ctx context.Context, rng *hutil.Rng, id int, ws probe.Workspace,
 	}
 	cc.Subsets = results
 	// every block of every partition: per file, the same violations as the file alone
-	for _, r := range results {
+	// (smallest runs first, so that the first difference is already a small one)
+	order := make([]int, len(results))
+	for i := range order {
+		order[i] = i
+	}
+	sort.SliceStable(order, func(a, b int) bool { return len(results[order[a]].Files) < len(results[order[b]].Files) })
+	for _, i := range order {
+		r := results[i]
 		if r.Err != "" {
 			cc.Mismatch = append(cc.Mismatch, fmt.Sprintf("lint of %v failed: %s", r.Files, r.Err))
 			continue
@@ -631,14 +819,219 @@ func runCompose(ctx context.Context, rng *hutil.Rng, id int, ws probe.Workspace,
 		}
 		for _, f := range r.Files {
 			single := byKey[subsetKey([]string{f})]
-			a, _ := json.Marshal(r.PerFile[f])
-			b, _ := json.Marshal(single.PerFile[f])
-			if string(a) != string(b) {
+			if single.Err != "" {
+				continue // reported above
+			}
+			if !sameKeys(r.PerFile[f], single.PerFile[f]) {
+				a, _ := json.Marshal(r.PerFile[f])
+				b, _ := json.Marshal(single.PerFile[f])
 				cc.Mismatch = append(cc.Mismatch, fmt.Sprintf("file %s: in the run over %v: %s; alone: %s", f, r.Files, a, b))
+				if cc.Diff == nil {
+					cc.Diff = rn.shrinkDiff(ctx, ws, root, r, f, single)
+				}
 			}
 		}
 	}
+	if cc.Diff != nil {
+		keep := map[string]bool{}
+		for _, f := range cc.Diff.Block {
+			keep[f] = true
+		}
+		m := probe.Workspace{ID: ws.ID, Config: ws.Config, Custom: ws.Custom}
+		for _, f := range ws.Files {
+			if keep[f.Name] {
+				m.Files = append(m.Files, f)
+			}
+		}
+		cc.MinWS = &m
+	}
 	return cc
+}
+
+// shrinkDiff: drop files from the run while file f is still judged differently than alone
+func (rn *runner) shrinkDiff(ctx context.Context, ws probe.Workspace, root string, r SubsetRun, f string, single SubsetRun) *Diff {
+	cur := r
+	for changed := true; changed && len(cur.Files) > 2; {
+		changed = false
+		for i, g := range cur.Files {
+			if g == f {
+				continue
+			}
+			fs := append(append([]string{}, cur.Files[:i]...), cur.Files[i+1:]...)
+			t, _ := rn.lint(ctx, ws, root, fs)
+			if t.Err == "" && !sameKeys(t.PerFile[f], single.PerFile[f]) {
+				cur = t
+				changed = true
+				break
+			}
+		}
+	}
+	return &Diff{File: f, Block: cur.Files, InBlock: cur.PerFile[f], Alone: single.PerFile[f],
+		Rules: rulesDiffering(cur.PerFile[f], single.PerFile[f]), From: r.Files}
+}
+
+// ---------------------------------------------------------------- the bundled rules of this tree
+
+type RuleInfo struct {
+	Rule            string `json:"rule"` // category/title
+	Report          bool   `json:"report"`
+	Aggregate       bool   `json:"aggregate"`
+	AggregateReport bool   `json:"aggregate_report"`
+}
+
+// bundleRules: which of report / aggregate / aggregate_report every rule package of the embedded
+// bundle (the one the linter of this tree evaluates) defines
+func bundleRules() []RuleInfo {
+	by := map[string]*RuleInfo{}
+	for _, mf := range rbundle.LoadedBundle.Modules {
+		if mf.Parsed == nil {
+			continue
+		}
+		p := mf.Parsed.Package.Path
+		// data.regal.rules.<category>.<title>
+		if len(p) != 5 || p[1].Value.String() != `"regal"` || p[2].Value.String() != `"rules"` {
+			continue
+		}
+		cat := strings.Trim(p[3].Value.String(), `"`)
+		title := strings.Trim(p[4].Value.String(), `"`)
+		if strings.HasSuffix(title, "_test") {
+			continue
+		}
+		k := cat + "/" + title
+		ri := by[k]
+		if ri == nil {
+			ri = &RuleInfo{Rule: k}
+			by[k] = ri
+		}
+		for _, r := range mf.Parsed.Rules {
+			ref := r.Head.Ref()
+			if len(ref) == 0 {
+				continue
+			}
+			switch strings.Trim(ref[0].Value.String(), `"`) {
+			case "report":
+				ri.Report = true
+			case "aggregate":
+				ri.Aggregate = true
+			case "aggregate_report":
+				ri.AggregateReport = true
+			}
+		}
+	}
+	out := []RuleInfo{}
+	for _, ri := range by {
+		out = append(out, *ri)
+	}
+	sort.Slice(out, func(i, j int) bool { return out[i].Rule < out[j].Rule })
+	return out
+}
+
+// ---------------------------------------------------------------- the module pool
+
+// PoolFile: a module offered for the composition workspaces (hand-written trigger or docs example)
+type PoolFile struct {
+	Name    string `json:"name"`
+	Content string `json:"content"`
+	Source  string `json:"source"` // "trigger" | "docs"
+}
+
+type PoolInfo struct {
+	Kind       string     `json:"kind"`
+	Offered    int        `json:"offered"`
+	Unparsable []string   `json:"unparsable"`
+	Rules      []RuleInfo `json:"rules"`
+}
+
+func chunk(fs []probe.File, k int) [][]probe.File {
+	var out [][]probe.File
+	for i := 0; i < len(fs); i += k {
+		j := i + k
+		if j > len(fs) {
+			j = len(fs)
+		}
+		c := append([]probe.File{}, fs[i:j]...)
+		for p := 0; len(c) < k && p < i && p < len(fs); p++ { // pad the last chunk from the front
+			c = append(c, fs[p])
+		}
+		out = append(out, c)
+	}
+	return out
+}
+
+type job struct {
+	id        int
+	ws        probe.Workspace
+	source    string
+	rng       *hutil.Rng
+	probeOnly bool
+}
+
+// poolJobs: the composition workspaces built from the pool
+func poolJobs(rng *hutil.Rng, pool []PoolFile, tier string, info *PoolInfo) []job {
+	info.Offered = len(pool)
+	info.Unparsable = []string{}
+	var trig, docs []probe.File
+	for _, pf := range pool {
+		p := filepath.Join("pool", pf.Name)
+		if err := os.MkdirAll(filepath.Dir(p), 0o755); err != nil {
+			panic(err)
+		}
+		if err := os.WriteFile(p, []byte(pf.Content), 0o644); err != nil {
+			panic(err)
+		}
+		// a file that does not parse fails the whole run (c02_unparseable_file_fails_run): not for this part
+		if _, err := rules.InputFromPaths([]string{p}, "", nil); err != nil {
+			info.Unparsable = append(info.Unparsable, pf.Name)
+			continue
+		}
+		f := probe.File{Name: pf.Name, Content: pf.Content}
+		if pf.Source == "trigger" {
+			trig = append(trig, f)
+		} else {
+			docs = append(docs, f)
+		}
+	}
+	var jobs []job
+	id := 1000
+	add := func(files []probe.File, conf string, custom bool, source string, probeOnly bool) {
+		if len(files) == 0 {
+			return
+		}
+		jobs = append(jobs, job{id: id, ws: probe.Workspace{ID: id, Files: files, Config: conf, Custom: custom}, source: source,
+			rng: hutil.NewRng(rng.Next()), probeOnly: probeOnly})
+		id++
+	}
+	// the hand-written triggers: at most 4 files per workspace, so every subset and partition is linted;
+	// quick: alternating configurations, thorough: both for every chunk
+	for i, c := range chunk(trig, 4) {
+		if tier != "quick" || i%2 == 0 {
+			add(c, "enable-all", false, "pool-triggers", false)
+		}
+		if tier != "quick" || i%2 == 1 {
+			add(c, "default", true, "pool-triggers", false)
+		}
+	}
+	// the docs examples, every rule enabled; one trigger module rides along in each workspace.
+	// One Lint costs a query preparation (~0.3 s of CPU), and every module needs its own run alone, so the
+	// quick tier lints a sample of the modules (chosen by the seed) and evaluates only the lint query
+	// with/without the collect operation (one prepared query for all) on the others.
+	hutil.Shuffle(rng, docs)
+	for i, c := range chunk(docs, 8) {
+		if len(trig) > 0 {
+			c = append(c, trig[i%len(trig)])
+		}
+		add(c, "enable-all", false, "pool-docs", tier == "quick" && i >= 4)
+	}
+	if tier != "quick" {
+		hutil.Shuffle(rng, docs)
+		for i, c := range chunk(docs, 3) {
+			if len(trig) > 0 {
+				c = append(c, trig[i%len(trig)])
+			}
+			add(c, "enable-all", i%3 == 0, "pool-docs", false)
+		}
+	}
+	return jobs
 }
 
 func main() {
@@ -671,7 +1064,9 @@ func main() {
 	type fixedIn struct {
 		Trees   []TreeCase        `json:"trees"`
 		Compose []probe.Workspace `json:"compose"`
+		Pool    []PoolFile        `json:"pool"`
 	}
+	rn := &runner{sem: make(chan struct{}, 10), oracles: &oracleCache{m: map[string]*probe.Oracle{}}, tier: tier}
 	only := false
 	var fx fixedIn
 	if len(os.Args) > 5 && os.Args[5] != "" {
@@ -687,10 +1082,27 @@ func main() {
 	for i := range fx.Trees {
 		out.Emit(runTree(ctx, rng, 5000+i, wabs, extra, !fx.Trees[i].NoLint, &fx.Trees[i]))
 	}
+	var jobs []job
 	for i, ws := range fx.Compose {
-		out.Emit(runCompose(ctx, rng, 5000+i, ws, tier))
+		jobs = append(jobs, job{id: 5000 + i, ws: ws, source: "fixed", rng: hutil.NewRng(rng.Next())})
+	}
+	runJobs := func(jobs []job) {
+		res := make([]ComposeCase, len(jobs))
+		var wg sync.WaitGroup
+		for i, j := range jobs {
+			wg.Add(1)
+			go func(i int, j job) {
+				defer wg.Done()
+				res[i] = rn.runCompose(ctx, j.rng, j.id, j.ws, j.source, j.probeOnly)
+			}(i, j)
+		}
+		wg.Wait()
+		for _, c := range res {
+			out.Emit(c)
+		}
 	}
 	if only {
+		runJobs(jobs)
 		return
 	}
 
@@ -703,7 +1115,7 @@ func main() {
 	// trees: the linted ones run in parallel
 	cases := make([]TreeCase, ntrees)
 	var wg sync.WaitGroup
-	sem := make(chan struct{}, 6)
+	sem := rn.sem
 	// generation consumes the generator sequentially so that a run is reproducible from its seed
 	for i := 0; i < ntrees; i++ {
 		sub := hutil.NewRng(rng.Next())
@@ -727,6 +1139,10 @@ func main() {
 	gen := hutil.NewRng(hutil.SeedFromEnv() ^ 0xc02)
 	for i, n := range csizes {
 		ws := probe.GenWorkspace(gen, i, n)
-		out.Emit(runCompose(ctx, gen, i, ws, tier))
+		jobs = append(jobs, job{id: i, ws: ws, source: "generated", rng: hutil.NewRng(gen.Next())})
 	}
+	info := PoolInfo{Kind: "pool", Rules: bundleRules()}
+	jobs = append(jobs, poolJobs(hutil.NewRng(hutil.SeedFromEnv()^0x9001), fx.Pool, tier, &info)...)
+	out.Emit(info)
+	runJobs(jobs)
 }
